@@ -716,6 +716,18 @@ def h_yaxis(case):
 
 AX = ["YX", "YXS", "SYX"]
 
+def _xh_custom(param, tier):
+    from ..xh import run
+
+    return run.run_twins(param, tier)
+
+
+def _xh_replay(param, model):
+    from ..xh import run
+
+    return run.replay_twin(param, model)
+
+
 OBLIGATIONS = [
     Ob("L1_blocksize", h_blocksize, fixed(), descr="adjust_blocksize / norm_blocksize: multiples of 16, >= requested block unless the image is smaller (then align_up(dim,16))",
        functions=("odc.geo.cog._shared.adjust_blocksize", "odc.geo.cog._shared.norm_blocksize"), bounds="block >= 1, dim >= 0 symbolic", setup=setup),
@@ -753,5 +765,8 @@ OBLIGATIONS = [
        bounds="image sides 1..64 (symbolic), 16-pixel tiles, layouts YX / YXS(3) / SYX(3 planes, or 2 in one chunk); dask token assumed to separate nothing (constant)",
        stubs=("dask.bag / dask.base / dask.highlevelgraph recorders", "tifffile.TiffWriter recorder", "_pyramids_from_cog_metadata (reprojection) replaced by shapes from the header metadata", "MPUFileSink/mpu_write recorder (byte assembly is C06)", "tile compressor replaced by a tag"),
        setup=setup_tifffile, timeout_ms=20000),
+    Ob("X_crosshair_twins", None, tiered([], [dict(per_condition_timeout=20, module="twins_c04")]), custom=_xh_custom, custom_replay=_xh_replay,
+       descr="second engine (thorough tier): CrossHair 0.0.110 on contract twins of adjust_blocksize, num_overviews (and Tiles.locate / region, which it does not confirm: float ceil); 'Confirmed over all paths' recorded, 'Not confirmed' ignored, a counterexample replayed",
+       functions=("odc.geo.cog._shared.adjust_blocksize", "odc.geo.cog._shared.num_overviews", "odc.geo.roi.Tiles.locate"), bounds="CrossHair's own path exploration, 20 s per condition"),
     Ob("L6_cog_gbox_tile", h_cog_gbox_tile, fixed(), descr="cog_gbox(tile=): shape from the layout rule, grid unchanged", functions=("odc.geo.cog._shared.cog_gbox",), setup=setup, timeout_ms=20000),
 ]
